@@ -1455,6 +1455,9 @@ def connect(m, *args, **kwargs):
                 for handle, signature in signatures.items()}
     connections = []
     any_in, any_out = False, False
+    # Dimensions of the signature members encountered so far, by path; needed to reach the port
+    # members nested in them.
+    sig_dimensions = {}
     # Each iteration of the outer loop is intended to connect several (usually a pair) members
     # to each other, e.g. an out member `[0].a` to an in member `[1].a`. However, because we
     # do not just check signatures for equality (in order to improve diagnostics), it is possible
@@ -1529,6 +1532,14 @@ def connect(m, *args, **kwargs):
                 f"port member(s) {port_member_paths_as_string}")
         if sig_kind:
             # There are no port members at this point; we're done with this path.
+            (sig_first_path, sig_first_member), *sig_rest = sig_kind
+            for (sig_path, sig_member) in sig_rest:
+                if sig_member.dimensions != sig_first_member.dimensions:
+                    raise ConnectionError(
+                        f"Cannot connect the members {_format_path(sig_first_path)} and "
+                        f"{_format_path(sig_path)} because their dimensions "
+                        f"({sig_first_member.dimensions} and {sig_member.dimensions}) do not match")
+            sig_dimensions[first_path] = sig_first_member.dimensions
             continue
         # There are only port members after this point.
         any_in = any_in or bool(in_kind)
@@ -1636,9 +1647,23 @@ def connect(m, *args, **kwargs):
                     connect_dimensions(rest_of_dimensions,
                         out_path=(*out_path, index), in_path=(*in_path, index),
                         src_loc_at=src_loc_at + 1)
-            assert out_member.dimensions == in_member.dimensions
-            connect_dimensions(out_member.dimensions,
-                out_path=out_path, in_path=in_path, src_loc_at=src_loc_at + 1)
+            if out_member.dimensions != in_member.dimensions:
+                raise ConnectionError(
+                    f"Cannot connect the member {_format_path(out_path)} to the member "
+                    f"{_format_path(in_path)} because their dimensions "
+                    f"({out_member.dimensions} and {in_member.dimensions}) do not match")
+            # Index every signature member with dimensions that is on the way to the port member.
+            (out_handle, *member_path), (in_handle, *_) = out_path, in_path
+            indexed_paths = [()]
+            for depth, name in enumerate(member_path):
+                indexed_paths = [(*indexed_path, name) for indexed_path in indexed_paths]
+                for dimension in sig_dimensions.get(tuple(member_path[:depth + 1]), ()):
+                    indexed_paths = [(*indexed_path, index) for indexed_path in indexed_paths
+                                                            for index in range(dimension)]
+            for indexed_path in indexed_paths:
+                connect_dimensions(out_member.dimensions,
+                    out_path=(out_handle, *indexed_path), in_path=(in_handle, *indexed_path),
+                    src_loc_at=src_loc_at + 1)
 
     # If no connections were made, and there were inputs but no outputs in the
     # signatures, issue a diagnostic as this is most likely in error.
